@@ -6,6 +6,7 @@ Line protocol for the P2P and RDAC handler models (C18).  One shared storage (as
 the two handlers), the RDAC step dictionary, the P2P configuration.
 
 `reset <p2p_port> <rdac_port>` · `p2p <addr> <hex> <snmpFails 0|1>` · `setout <addr> <val>` ·
+`envpatch <addr> <key> <val>` ·
 `rdac <addr> <hex> <snmpFails 0|1>` · `dump`.   `<addr>` = `<ip code points joined by .>:<port>`.
 -/
 
@@ -63,6 +64,12 @@ def handshakeStep (d : DState) (op : String) (args : List String) : DState × St
     match parseAddr a, parseVal v with
     | some a, some v =>
       let r := P2p.step d.cfg d.st.store (.setOut a v)
+      ({ d with st := { d.st with store := r.1 } }, "ok len=" ++ toString r.1.len)
+    | _, _ => (d, "ERR bad-args")
+  | "envpatch", [a, k, v] =>
+    match parseAddr a, parseVal v with
+    | some a, some v =>
+      let r := P2p.step d.cfg d.st.store (.envPatch a (parseKey k) v)
       ({ d with st := { d.st with store := r.1 } }, "ok len=" ++ toString r.1.len)
     | _, _ => (d, "ERR bad-args")
   | "rdac", [a, hex, f] =>
